@@ -28,11 +28,13 @@ Section Model.
     then mass else q.
   (* massPointSum accumulates the crossing points; MassPoint divides by their number *)
   Definition point_sum (ps : list (V3 O)) : V3 O := fold_left v3add ps v3zero.
-  Definition mass_point (ps : list (V3 O)) : V3 O := v3divs (point_sum ps) (ofZ O (Z.of_nat (length ps))).
+  (* vec DivScalar(b) is MulScalar(1 / b) *)
+  Definition divscalar (a : V3 O) (b : T) : V3 O := v3muls a (o1 O / b).
+  Definition mass_point (ps : list (V3 O)) : V3 O := divscalar (point_sum ps) (ofZ O (Z.of_nat (length ps))).
 
   (* end of placeVertex: vertex further than FarAway cell sizes from the cell centre on some axis -> Clamp *)
   Definition v2_final (start size v : V3 O) (far : T) : V3 O :=
-    let c := v3add start (v3divs size two) in
+    let c := v3add start (divscalar size two) in
     if (oabs O (wx v - wx c) >? far * wx size) || (oabs O (wy v - wy c) >? far * wy size) || (oabs O (wz v - wz c) >? far * wz size)
     then v3clamp v start (v3add start size) else v.
 End Model.
@@ -50,7 +52,7 @@ Theorem v2_vertex_in_cell (start size v : V3 ROps) (far : R) :
   in_box3 (cellbox start (v3add start size)) (v2_final start size v far).
 Proof.
   intros Hf Hx Hy Hz. destruct start as [sx sy sz], size as [dx dy dz], v as [vx vy vz].
-  unfold v2_final, in_box3, cellbox, two. cbn [wx wy wz b3min b3max v3add v3divs] in *.
+  unfold v2_final, in_box3, cellbox, two, divscalar. cbn [wx wy wz b3min b3max v3add v3muls] in *.
   change (oadd ROps) with Rplus. change (osub ROps) with Rminus. change (omul ROps) with Rmult.
   change (odiv ROps) with Rdiv. change (oabs ROps) with Rabs. change (oltb ROps) with Rltb. change (o1 ROps) with 1.
   match goal with |- context [if ?c then _ else _] => destruct c eqn:E end.
@@ -86,8 +88,8 @@ Proof.
   set (r := fold_left (@v3add ROps) ps (mkV3 0 0 0)) in *.
   assert (Hn : 0 < INR (length ps)) by (apply lt_0_INR; destruct ps; [contradiction | cbn; lia]).
   cbn [ofZ ROps]. rewrite <- INR_IZR_INZ.
-  set (m := INR (length ps)) in *. unfold in_box3. cbn [cellbox b3min b3max v3divs wx wy wz].
-  change (odiv ROps) with Rdiv. unfold Rdiv.
+  set (m := INR (length ps)) in *. unfold in_box3, divscalar. cbn [cellbox b3min b3max v3muls wx wy wz].
+  change (odiv ROps) with Rdiv. change (omul ROps) with Rmult. change (o1 ROps) with 1. unfold Rdiv. rewrite !Rmult_1_l.
   assert (Hk : 0 < / m) by now apply Rinv_0_lt_compat.
   assert (Hmk : m * / m = 1) by (apply Rinv_r; lra).
   destruct B as ((B1 & B2) & (B3 & B4) & (B5 & B6)).
